@@ -491,20 +491,20 @@ def _execute(trace, probes, scratch):
         if cut > 0:
             img._mark(cut - 1, cut)
         if bytes(sf.data[:cut]) != ref[:cut]:
-            raise Violation('harness-divergence', 'bytes on the simulated disk are not a prefix of the reference image')
+            raise Violation('writer-output-differs-by-sink', 'bytes on the simulated disk are not a prefix of the reference image')
         probes['tear_class:' + _tear_class(ref, extents, cut, fmt)] += 1
     elif res['failed']:
         probes['fault:write_error_escaped'] += 1
         n = len(sf.data)
         if bytes(sf.data) != ref[:n]:
-            raise Violation('harness-divergence', 'bytes after a write error are not a prefix of the reference image')
+            raise Violation('writer-output-differs-by-sink', 'bytes after a write error are not a prefix of the reference image')
         img = Image(ref[:n], extents)
         img.torn_at = n
         if n > 0:
             img._mark(n - 1, n)
     else:
         if bytes(sf.data) != ref:
-            raise Violation('harness-divergence', f'fault-free simulated write differs from reference image '
+            raise Violation('writer-output-differs-by-sink', f'fault-free simulated write differs from reference image '
                                                    f'({len(sf.data)} vs {len(ref)} bytes)')
         img = Image(ref, extents)
 
@@ -542,7 +542,7 @@ def _execute(trace, probes, scratch):
                 appended.append(r)
             w.close()
             if bytes(sf2.data[start:]) != buf.getvalue().encode():
-                raise Violation('harness-divergence', 'appended bytes differ from the reference append')
+                raise Violation('writer-output-differs-by-sink', 'appended bytes differ from the reference append')
             base = img.n
             img.data += sf2.data[start:]
             for j, (a, b) in enumerate(ext2):
